@@ -139,8 +139,13 @@ func clientEncodeDecodeFile(genpkg string, svc *expr.HTTPServiceExpr) *codegen.F
 						return ok
 					},
 					"underlyingType": func(dt expr.DataType) expr.DataType {
-						if ut, ok := dt.(expr.UserType); ok {
-							return ut.Attribute().Type
+						// an alias may alias another alias
+						for i := 0; i < 32; i++ {
+							ut, ok := dt.(expr.UserType)
+							if !ok {
+								break
+							}
+							dt = ut.Attribute().Type
 						}
 						return dt
 					},
@@ -234,9 +239,13 @@ func buildResponseData(data *ResponseData, serviceName string, method *service.M
 }
 
 func fieldType(ft expr.DataType) expr.DataType {
-	ut, isut := ft.(expr.UserType)
-	if isut {
-		return ut.Attribute().Type
+	// an alias may alias another alias
+	for i := 0; i < 32; i++ {
+		ut, isut := ft.(expr.UserType)
+		if !isut {
+			break
+		}
+		ft = ut.Attribute().Type
 	}
 	return ft
 }
